@@ -122,6 +122,40 @@ def _idx(name, **kw):
 SECOND = [_idx('xor', k=2), _idx('maj', k=3), _idx('lift', k=2), _idx('ite'), _idx('flip'), _idx('shuffle'), _idx('one', k=2)]
 
 
+def _longchain(fi, length, pattern):
+    """a long chain of cheap steps: one numbered provenance entry per step, in order, none overwritten"""
+    from cnfgen.transformations import substitutions as S
+    F = _mk(fi, True)
+    before = snapshot(F)
+    R = F
+    texts = []
+    for i in range(length):
+        kind = (pattern + i) % 4
+        if kind == 0:
+            R = S.FlipPolarity(R)
+        elif kind == 1:
+            R = S.OrSubstitution(R, 1)
+        elif kind == 2:
+            R = Shuffle(R, 'fixed', 'fixed', 'fixed')
+        else:
+            R = S.XorSubstitution(R, 1)
+        texts.append(R.header.get('transformation %d' % (i + 1)))
+        keys = [k for k in R.header if k.startswith('transformation ')]
+        if keys != ['transformation %d' % (j + 1) for j in range(i + 1)]:
+            return False
+        if [R.header[k] for k in keys] != texts:
+            return False                     # an earlier entry was overwritten
+    return snapshot(F) == before
+
+
+def h_e_longchain(hi: int, length: int, pattern: int) -> bool:
+    """
+    pre: 0 <= hi <= 9 and 1 <= length <= 23 and 0 <= pattern <= 3
+    post: _
+    """
+    return untraced(_longchain, 30 * pick(hi, 0, 9), pick(length, 1, 23), pick(pattern, 0, 3))
+
+
 # ------------------------------------------------------- argument immutability (symbolic)
 def _builder_args(cls, op, s1, s2, s3, c, as_list):
     lits = [1 if s1 else -1, 2 if s2 else -2, 3 if s3 else -3]
